@@ -36,4 +36,7 @@ def run(args, prop="C01", backends=("vm",)):
         rep.sample({"family": p["feats"]["family"], "program": rendered[p["id"]][0][:1200],
                     "expected_status": cases[p["id"]]["status"],
                     "expected_output": (sem.P.plain_text(cases[p["id"]]["out"]) or "<pattern>")[:400]})
+    # float values at the edges (nan, infinities, signed zeros): HmsFloat decides every comparison and arithmetic result
+    from . import floatspec
+    floatspec.run(rep, pool, backends=("vm",))
     return rep.finish()
